@@ -200,4 +200,69 @@ MUTANTS = {
         "edits": [("Lib/fontTools/otlLib/optimize/gpos.py", "    return (v1 is None or v1.getEffectiveFormat() == 0) and (", "    return (v1 is None or abs(getattr(v1, \"XAdvance\", 0) or 0) <= 3) and (")],
         "check": ["C06", "--tier", "quick", "--only", "gen,fea"],
     },
+    # ---- added with the fixes and oracles of the second seeded round
+    "c16_fealib_langsys_set_order": {
+        "edits": [("Lib/fontTools/feaLib/builder.py", "        for script, lang in sorted(self.language_systems):\n            key = (script, lang, feature_name)", "        for script, lang in self.language_systems:\n            key = (script, lang, feature_name)")],
+        "check": ["C16", "--tier", "quick", "--only", "hashsweep,order"],
+    },
+    "c16_subset_prop_set_order": {
+        "edits": [("Lib/fontTools/subset/__init__.py", "            for g in sorted(s.glyphs)\n        }\n        mostCommon", "            for g in s.glyphs\n        }\n        mostCommon")],
+        "check": ["C16", "--tier", "thorough", "--only", "hashsweep", "--scale", "0.5"],
+    },
+    "c16_colr_prewrite_sorts_object": {
+        "edits": [("Lib/fontTools/ttLib/tables/otTables.py", "        table[\"BaseGlyphPaintRecord\"] = sorted(", "        table[\"BaseGlyphPaintRecord\"] = self.BaseGlyphPaintRecord = sorted(")],
+        "check": ["C16", "--tier", "quick", "--only", "hist,hist_fail"],
+    },
+    "c16_subset_options_share_default_list": {
+        "edits": [("Lib/fontTools/subset/__init__.py", "self._no_subset_tables_default[:]", "self._no_subset_tables_default")],
+        "check": ["C16", "--tier", "quick", "--only", "order"],
+    },
+    "c19_writeglyph_lists_before_write": {
+        "edits": [("Lib/fontTools/ufoLib/glifLib.py", "            fileName = self.glyphNameToFileName(glyphName, self._existingFileNames)\n        data = _writeGlyphToBytes(", "            fileName = self.glyphNameToFileName(glyphName, self._existingFileNames)\n            self.contents[glyphName] = fileName\n        data = _writeGlyphToBytes(")],
+        "check": ["C19", "--tier", "quick", "--only", "ufo"],
+    },
+    "c19_writeglyph_clash_set_not_updated": {
+        "edits": [("Lib/fontTools/ufoLib/glifLib.py", "            self.contents[glyphName] = fileName\n            self._existingFileNames.add(fileName.lower())", "            self.contents[glyphName] = fileName")],
+        "check": ["C19", "--tier", "quick", "--only", "ufo"],
+    },
+    "c19_map_backward_stale_cache": {
+        "edits": [("Lib/fontTools/designspaceLib/__init__.py", "        axis_map = self.get_validated_map()\n        if not axis_map:\n            return v\n        # Build (design, user)", "        axis_map = self.__dict__.setdefault(\"_bw\", self.get_validated_map())\n        if not axis_map:\n            return v\n        # Build (design, user)")],
+        "check": ["C19", "--tier", "quick", "--only", "designspace"],
+    },
+    "c04_vhea_depends_on_hmtx": {
+        "edits": [("Lib/fontTools/ttLib/tables/_v_h_e_a.py", 'dependencies = ["vmtx", "glyf", "CFF ", "CFF2"]', 'dependencies = ["hmtx", "glyf", "CFF ", "CFF2"]')],
+        "check": ["C04", "--tier", "quick", "--only", "save"],
+    },
+    "c04_woff2_head_not_recompiled_after_loca": {
+        "edits": [("Lib/fontTools/ttLib/woff2.py", "        self.ttFont[\"head\"].flags |= 1 << 11\n        self._compileTable(\"head\")", "        if self.ttFont[\"head\"].flags & (1 << 11):\n            return\n        self.ttFont[\"head\"].flags |= 1 << 11\n        self._compileTable(\"head\")")],
+        "check": ["C04", "--tier", "quick", "--only", "save"],
+    },
+    "c03_loca_replaced_unless_loaded": {
+        "edits": [("Lib/fontTools/misc/xmlReader.py", 'if tag == "loca" and tag in self.ttFont:', 'if tag == "loca" and self.ttFont.isLoaded(tag):')],
+        "check": ["C03", "--tier", "quick"],
+    },
+    "c03_importxml_glyphorder_only_with_post": {
+        "edits": [("Lib/fontTools/ttLib/ttFont.py", 'if "maxp" in self and ("post" in self or "CFF " in self):', 'if "maxp" in self and "post" in self:')],
+        "check": ["C03", "--tier", "quick"],
+    },
+    "c01_cmap_alias_drops_unknown_data": {
+        "edits": [("Lib/fontTools/ttLib/tables/_c_m_a_p.py", "                if not isinstance(table, cmap_format_unknown):\n                    table.data = None  # Mark as decompiled", "                table.data = None  # Mark as decompiled")],
+        "check": ["C01", "--tier", "quick"],
+    },
+    "c01_coverage_sorted_before_numbering": {
+        "edits": [("Lib/fontTools/ttLib/tables/otTables.py", "                index = 0\n                for i, (start, end) in enumerate(ranges):\n                    r = RangeRecord()\n                    r.StartID = start", "                ranges.sort()\n                index = 0\n                for i, (start, end) in enumerate(ranges):\n                    r = RangeRecord()\n                    r.StartID = start")],
+        "check": ["C06", "--tier", "quick", "--only", "gen"],
+    },
+    "c06_markbase_split_wrong_slice": {
+        "edits": [("Lib/fontTools/ttLib/tables/otTables.py", "        newBaseRecord.BaseAnchor = rec.BaseAnchor[oldClassCount:]", "        newBaseRecord.BaseAnchor = rec.BaseAnchor[-oldClassCount:]")],
+        "check": ["C06", "--tier", "quick", "--only", "gen"],
+    },
+    "c06_compact_format1_first": {
+        "edits": [("Lib/fontTools/otlLib/optimize/gpos.py", "    new_subtables = []\n    for subtable in subtables:\n        if subtable.Format == 1:\n            # Not doing anything to Format 1 (yet?)\n            new_subtables.append(subtable)\n        elif subtable.Format == 2:", "    new_subtables = [st for st in subtables if st.Format == 1]\n    for subtable in subtables:\n        if subtable.Format == 2:")],
+        "check": ["C06", "--tier", "quick", "--only", "gen"],
+    },
+    "c20_varlib_twin_keeps_path": {
+        "edits": [("Lib/fontTools/varLib/__init__.py", "filename = os.path.basename(vf.filename)", "filename = os.path.basename(vf.filename) if os.path.basename(vf.filename) not in globals().setdefault(\"_seen_vf\", set()) else vf.filename\n                    globals()[\"_seen_vf\"].add(os.path.basename(vf.filename))")],
+        "check": ["C20", "--tier", "quick", "--only", "text"],
+    },
 }
